@@ -19,6 +19,11 @@ Tied to the code by `harness/props/c10.py` (ops `init.*`; the real draws are rec
   the strict finalisation + clip leave the initial kernel unchanged, and the model of
   `assert_constraints` (C12) accepts it.
 
+Companions: `Props/C10Constraint.lean` (T5 for the WHOLE weight constraint `latticeConstraintT` — Dykstra
+included, both modes, unimodal dimensions, any range inside the bounds; totality of the random-monotonic
+model; explicit initialisation ranges and the findings F-C10-e/f), `Props/C10Pwl.lean` (PWL initialisers are
+fixed points of `project_all_constraints`), `Props/C10Accepted.lean` (`LinWF` derived from acceptance).
+
 Hypotheses are what the constructors enforce (`verify_hyperparameters`: sizes ≥ 2, unimodal
 sizes ≥ 3, one entry per dimension, no dimension both monotone and unimodal, `init_min < init_max`).
 Outside the statement (recorded as findings by the harness, see the report): categorical ordering
